@@ -572,6 +572,14 @@ func init() {
 			add(c03Group{P: p, Shape: "text", Len: 5000, Jobs: j, Class: "truncate", Arg: 7})
 			add(c03Group{P: p, Shape: "text", Len: 5000, Jobs: j, Class: "garbage", Arg: 300})
 		}
+		// blocks spanning several internal chunks of the entropy codecs (per-chunk table headers
+		// at 16/32 KiB boundaries): strided flips over the whole payload
+		for _, e := range []string{"HUFFMAN", "ANS0", "ANS1", "RANGE", "FPAQ"} {
+			p := Params{"NONE", e, 65536, 2, 32, -1, false}
+			for sh := 0; sh < 2; sh++ {
+				add(c03Group{P: p, Shape: "text", Len: 40000, Jobs: 2, Class: "payload-stride", Arg: pick(c, 197, 61), Shard: sh, Shards: 2})
+			}
+		}
 		// larger blocks: 64 KiB for every transform that has size-dependent paths
 		for _, t := range []string{"BWT", "BWTS", "LZ", "LZX", "ROLZ", "ROLZX", "TEXT", "RLT"} {
 			p := Params{t, "NONE", 65536, 2, 32, -1, false}
